@@ -12,7 +12,8 @@ def SELECT(name):
 TRUSTED = cm.TRUSTED_CORE
 ASSUMPTIONS = cm.ASSUME_CORE + ['position argument of each call site is the position of the offending token as written in the code (not compared with a LaTeX semantics)']
 LEVEL_TEXT = 'Proves the contract of latex_error: the result is one or two fixed Text tokens whose concatenated text is the complete mark " <mark> " (plus the verbose part), the first at pos, all inside the text when pos is; the diagnostic line/column are the 1-based line and column of pos (count/rfind axioms); one diagnostic per call (ghost counter). Call sites: every use of the result keeps both pieces (obligation mark-complete at each subscript of a latex_error result; the scanner joins them in error_token, whose contract says the single token carries the complete mark at the error position). arg_buffer builds its own mark only after calling latex_error. NOT decided: that no text beyond the faulty construct is lost, and that a well-formed document produces neither mark nor diagnostic.'
-LEVEL_NOTE = 'Whole-pipeline parts of the sentence (text after the fault preserved, silence on well-formed input) are outside per-function contracts.'
+LEVEL_NOTE = ('Whole-pipeline parts of the sentence (text after the fault preserved, silence on well-formed input) are outside per-function contracts.'
+    + ' A bounded stand-in in the quick tier (15 faulty and 6 well-formed sources x 3 option sets: one diagnostic, the mark at the place the diagnostic names, text after the paragraph kept, silence on well-formed input) states the end-to-end sentence on the real code; reported as bounded, not counted as proved.')
 TECHNIQUE = 'contract-based deductive verification: per-function postconditions and loop invariants over the real AST, z3; end-to-end sentence of the property not decided'
 
 
